@@ -15,20 +15,20 @@ import (
 
 // a recording importer: the batching and saving logic of ImportBlocks is what runs for real
 type c15Importer struct {
-	r          *simkit.Run
-	h          base.Height
-	saved      int
-	deferred   int
-	cancelled  int
-	savedSeq   int64
-	mergedSeq  int64
-	failSave   bool
-	failDefer  bool
+	r         *simkit.Run
+	h         base.Height
+	saved     int
+	deferred  int
+	cancelled int
+	savedSeq  int64
+	mergedSeq int64
+	failSave  bool
+	failDefer bool
 }
 
 var errC15 = errors.New("injected import error")
 
-func (im *c15Importer) WriteMap(base.BlockMap) error                          { return nil }
+func (im *c15Importer) WriteMap(base.BlockMap) error                              { return nil }
 func (im *c15Importer) WriteItem(base.BlockItemType, isaac.BlockItemReader) error { return nil }
 
 func (im *c15Importer) Save(context.Context) (func(context.Context) error, error) {
@@ -184,11 +184,11 @@ func c15Run(r *simkit.Run) {
 
 func init() {
 	simkit.Register(&simkit.Harness{
-		ID:   "C15",
-		Run:  c15Run,
-		Real: []string{"isaacblock.ImportBlocks (batching, saveImporters, cancelImporters)", "util.BatchWork / RunJobWorker"},
-		Stub: []string{"block importers and the merge function are recording stubs; block maps list no items so that only the batching and saving logic under test runs", "remote block-map source with latency and injected errors"},
-		Rule: "each run draws a range of 1-40 blocks and a batch limit 1-40 (in a third of the runs the count is forced to be a multiple of the limit), fetch latencies on the fake clock and one injected error or none (block-map fetch, importer creation, Save, deferred save). Success must mean that every height was saved once, its deferred part ran and a merge followed; an injected error must be reported. distinct = event-log hash",
+		ID:          "C15",
+		Run:         c15Run,
+		Real:        []string{"isaacblock.ImportBlocks (batching, saveImporters, cancelImporters)", "util.BatchWork / RunJobWorker"},
+		Stub:        []string{"block importers and the merge function are recording stubs; block maps list no items so that only the batching and saving logic under test runs", "remote block-map source with latency and injected errors"},
+		Rule:        "each run draws a range of 1-40 blocks and a batch limit 1-40 (in a third of the runs the count is forced to be a multiple of the limit), fetch latencies on the fake clock and one injected error or none (block-map fetch, importer creation, Save, deferred save). Success must mean that every height was saved once, its deferred part ran and a merge followed; an injected error must be reported. distinct = event-log hash",
 		Assumptions: []string{"the real BlockImporter is not in this harness (its content checks are C16's subject)"},
 	})
 }
